@@ -23,7 +23,8 @@ LETTER = "abc"
 out = []
 seen = set()
 catalogue = {}
-budget = {("c01", "x"): 0, ("c04", "x"): 0, ("c07", "x"): 0}
+budget = {("c01", "x"): 0, ("c04", "x"): 0, ("c07", "x"): 0, ("c02", "x"): 0, ("c03", "x"): 0, ("c16", "x"): 0, ("c17", "x"): 0, ("c18", "x"): 0}
+XMAX = {"c01": 2, "c04": 3, "c07": 3}
 
 
 def components(n, code):
@@ -53,12 +54,12 @@ def h(prop, tier, sem, kind, enc, n, code, q, pres="pl", cert=None, fault=0, che
     if sem == "st" and n == 2 and code in (8, 9):
         heavy = False  # the first component has no stable extension: the query ends at the first UNSAT (measured 40 s / 1.5 GB)
     if heavy:
-        if tier == "t" and prop in ("c04", "c07", "c01") and (prop, "x") in budget and budget[(prop, "x")] >= 4:
+        if (prop, "x") in budget and budget[(prop, "x")] >= XMAX.get(prop, 2):
             return  # at most a handful of 8-minute harnesses per property
         budget[(prop, "x")] = budget.get((prop, "x"), 0) + 1
         tier = "x"
     qn = "".join(LETTER[i] for i in q) if q else "x"
-    name = "%s_%s_%s_%s_%s_n%dg%d_%s_%s%s%s" % (prop, tier, sem, kind, enc, n, code, qn, pres, "_cert" if cert else "", "_f%d" % fault if fault else "")
+    name = "%s_%s_%s_%s_%s_n%dg%d_%s_%s%s%s" % (prop, tier, sem, kind, enc, n, code, qn, pres, "_cert" if cert else "", ("_f%ds" % (fault - 100) if fault >= 100 else "_f%d" % fault) if fault else "")
     if name in seen:
         return
     seen.add(name)
@@ -72,9 +73,9 @@ def h(prop, tier, sem, kind, enc, n, code, q, pres="pl", cert=None, fault=0, che
     unwind = max(6, nv + 2, n * n // 2 + 3)
     catalogue[name] = {"arguments": n, "attacks": ["%s->%s" % (LETTER[i], LETTER[j]) for i in range(n) for j in range(n) if (code >> (i * n + j)) & 1],
                        "problem": "%s-%s" % (kind.upper(), sem.upper()), "query": [LETTER[i] for i in q], "encoder": enc, "presentation": PRES[pres].split("::")[1],
-                       "with_certificate": bool(cert), "fault_positions": fault, "assertion_group": checks or CHECKS[prop]}
-    out.append("static_harness!(%s, n=%d, words=%d, unwind=%d, %s, %s, %s, %s, cert=%s, %s, qs=[[%s]], fault=%d, codes=[%d]);" % (
-        name, n, words, unwind, SEM[sem], ENC[enc], KIND[kind], PRES[pres], "true" if cert else "false",
+                       "with_certificate": bool(cert), "fault_positions": fault % 100, "fault_permanent": fault >= 100, "assertion_group": checks or CHECKS[prop]}
+    out.append("%s!(%s, n=%d, words=%d, unwind=%d, %s, %s, %s, %s, cert=%s, %s, qs=[[%s]], fault=%d, codes=[%d]);" % (
+        "static_fault_harness" if prop == "c17" else "static_harness", name, n, words, unwind, SEM[sem], ENC[enc], KIND[kind], PRES[pres], "true" if cert else "false",
         checks or CHECKS[prop], ", ".join(str(i) for i in q), fault, code))
 
 
@@ -198,16 +199,16 @@ h("c16", "t", "st", "dc", "def", 3, 8, [0, 2], cert=False)
 
 # ------------------------------------------------------------------ C17 fault injection (per-property mode)
 h("c17", "q", "st", "dc", "def", 2, 6, [0], cert=True, fault=2)
-h("c17", "q", "st", "dc", "def", 2, 0, [0, 1], cert=False, fault=3)
-h("c17", "q", "co", "dc", "aux", 2, 2, [1], cert=False, fault=2)
-h("c17", "q", "st", "se", "def", 2, 6, [], cert=False, fault=2)
-h("c17", "q", "st", "ds", "def", 2, 0, [0], cert=True, fault=3)
 h("c17", "q", "st", "dc", "def", 2, 2, [1], cert=True, fault=2)
-h("c17", "q", "st", "dc", "def", 2, 10, [0], cert=False, fault=2)
+h("c17", "q", "co", "dc", "aux", 2, 2, [1], cert=False, fault=2)
+h("c17", "t", "st", "dc", "def", 2, 0, [0, 1], cert=False, fault=3)
+h("c17", "q", "st", "se", "def", 2, 6, [], cert=False, fault=2)
+h("c17", "t", "st", "ds", "def", 2, 0, [0], cert=True, fault=3)
+h("c17", "t", "st", "dc", "def", 2, 10, [0], cert=False, fault=2)
 h("c17", "t", "st", "dc", "def", 2, 2, [0], cert=False, fault=2)
 h("c17", "t", "st", "dc", "def", 2, 6, [1], cert=False, fault=2)
 h("c17", "t", "co", "dc", "exp", 2, 14, [0], cert=True, fault=2)
-h("c17", "t", "st", "ds", "def", 2, 6, [1], cert=False, fault=2)
+h("c17", "q", "st", "ds", "def", 2, 6, [1], cert=False, fault=2)
 h("c17", "t", "st", "se", "def", 2, 0, [], cert=False, fault=3)
 
 # ------------------------------------------------------------------ C18 calls
@@ -253,11 +254,11 @@ for prop, sem, kind, enc, n, g, q in ITER:
 # fault injection on the iterative solvers (the first SAT call fails)
 for sem, enc in (("pr", "adm"), ("sst", "aux"), ("stg", "ecf"), ("id", "aux")):
     before = len(out)
-    h("c17", "q" if sem in ("pr", "sst") else "t", sem, "se", enc, 2, 2, [], cert=False, fault=1)
+    h("c17", "q" if sem == "pr" else "t", sem, "se", enc, 2, 2, [], cert=False, fault=101)
     if len(out) > before:
         iter_names.append(out[-1].split("(")[1].split(",")[0])
     before = len(out)
-    h("c17", "t", sem, "ds", enc, 2, 2, [1], cert=True, fault=2)
+    h("c17", "t", sem, "ds", enc, 2, 2, [1], cert=True, fault=101)
     if len(out) > before:
         iter_names.append(out[-1].split("(")[1].split(",")[0])
 import json as _json
